@@ -36,7 +36,7 @@ class World:
         self.m, self.info = world.load(probe)
         self.tier = tier
         self.results = []
-        self.query_timeout_ms = 60000 if tier == "quick" else 600000
+        self.query_timeout_ms = 60000 if tier == "quick" else 300000
         self.cross = tier == "thorough"
         self.solver_s = 0.0
         self.nqueries = 0
@@ -73,28 +73,47 @@ class World:
         return [(o, o.state.roots["self"].v) for o in outs]
 
     # ---- solving
-    def check(self, assumptions, goal=None, timeout_ms=None):
-        """sat-check of assumptions (goal None) or validity of assumptions => goal. Returns (verdict, model|None, secs)."""
-        s = z3.Solver()
-        s.set("timeout", timeout_ms or self.query_timeout_ms)
-        for a in self.m.base:
-            s.add(a)
-        for a in assumptions:
-            if a is True:
-                continue
-            s.add(to_bool(a))
-        if goal is not None:
-            if goal is True:
-                return "unsat", None, 0.0, None
-            s.add(z3.Not(to_bool(goal)))
-        t0 = time.time()
-        r = s.check()
-        dt = time.time() - t0
-        self.solver_s += dt
-        self.nqueries += 1
-        model = s.model() if r == z3.sat else None
-        text = s.to_smt2() if self.cross else None
-        return str(r), model, dt, text
+    def check(self, assumptions, goal=None, timeout_ms=None, retries=None):
+        """sat-check of assumptions (goal None) or validity of assumptions => goal. Returns (verdict, model|None, secs, smt2 text|None).
+        nlsat's running time varies by orders of magnitude with its random choices (measured: the same merge-step query 3 s alone, no
+        answer in 600 s on a loaded machine): an 'unknown' is retried with other seeds before it is reported."""
+        total = 0.0
+        out = None
+        if retries is None:
+            retries = getattr(self, "retries", 2)
+        for attempt, seed in enumerate([0, 7, 23][:1 + max(0, retries)]):
+            if attempt:
+                z3.set_param("smt.random_seed", seed)
+                z3.set_param("nlsat.seed", seed)
+            try:
+                s = z3.Solver()
+                s.set("timeout", timeout_ms or self.query_timeout_ms)
+                for a in self.m.base:
+                    s.add(a)
+                for a in assumptions:
+                    if a is True:
+                        continue
+                    s.add(to_bool(a))
+                if goal is not None:
+                    if goal is True:
+                        return "unsat", None, 0.0, None
+                    s.add(z3.Not(to_bool(goal)))
+                t0 = time.time()
+                r = s.check()
+                dt = time.time() - t0
+            finally:
+                if attempt:
+                    z3.set_param("smt.random_seed", 0)
+                    z3.set_param("nlsat.seed", 0)
+            total += dt
+            self.solver_s += dt
+            self.nqueries += 1
+            model = s.model() if r == z3.sat else None
+            text = s.to_smt2() if self.cross else None
+            out = (str(r), model, total, text)
+            if r != z3.unknown or goal is None:
+                break
+        return out
 
     def cross_check(self, smt2, expect):
         """Re-run an SMT-LIB query on the system z3 (4.8.12) and cvc5; 'unknown'/timeouts are tolerated, contradictions are not."""
@@ -137,26 +156,39 @@ class World:
                 out[str(v)] = Fraction(0)
         return out
 
-    def robust_model(self, assumptions, goal, vars_, counts=(), count_max=6):
+    def robust_model(self, assumptions, goal, vars_, counts=(), count_max=6, timeout_ms=20000, scales=2):
         """Look for a counterexample whose inputs are small integers (counts in 0..count_max), so that it survives rounding
         when replayed in doubles; a second attempt uses the same grid scaled by 2^-60 (mutants that only bite on tiny data).
         Returns values dict or None."""
-        for scale in (z3.RealVal(1), z3.RealVal(1) / (2 ** 60)):
+        for scale in (z3.RealVal(1), z3.RealVal(1) / (2 ** 60))[:scales]:
             extra = []
             for v in vars_:
                 if any(v is c or str(v) == str(c) for c in counts):
                     extra.append(z3.Or(*[v == k for k in range(0, count_max + 1)]))
                 else:
                     extra.append(z3.Or(*[v == k * scale for k in range(-6, 7)]))
-            r = self.check(list(assumptions) + extra, goal, timeout_ms=20000)
+            r = self.check(list(assumptions) + extra, goal, timeout_ms=timeout_ms, retries=0)
             if r[0] == "sat":
                 return self.model_values(r[1], vars_)
         return None
 
-    def prove(self, name, assumptions, goal, role=None, witness_vars=None, note="", replay=None):
-        """One obligation: the antecedent must be satisfiable (vacuity) and antecedent => goal valid."""
+    def prove(self, name, assumptions, goal, role=None, witness_vars=None, note="", replay=None, grid_first_ms=None):
+        """One obligation: the antecedent must be satisfiable (vacuity) and antecedent => goal valid.
+        grid_first_ms: look for a small-integer counterexample first (finite domain, answers quickly where the general nonlinear
+        query may come back 'unknown'); a hit is a counterexample of the general query as well."""
         t0 = time.time()
         res = Result(obligation="M:" + name, engine="mirsym", note=note, role=role or name)
+        if grid_first_ms and replay is not None:
+            try:
+                vals = self.robust_model(assumptions, goal, replay["vars"], replay.get("counts", ()), replay.get("count_max", 6),
+                                         timeout_ms=grid_first_ms, scales=1)
+            except Exception:
+                vals = None
+            if vals is not None:
+                res.update(verdict="violated", robust_witness=True, wall_s=round(time.time() - t0, 3), model={k: str(v) for k, v in vals.items()})
+                res["_replay"] = (replay, vals)
+                self.results.append(res)
+                return res
         v0 = self.check(assumptions)
         if v0[0] != "sat":
             res.update(verdict="inconclusive", reason="vacuity guard: antecedent is %s" % v0[0])
